@@ -5,6 +5,7 @@
 package ua
 
 import (
+	"bytes"
 	"encoding/base64"
 	"encoding/json"
 	"encoding/xml"
@@ -313,7 +314,10 @@ func (n *NodeID) String() string {
 		return fmt.Sprintf("ns=%d;i=%d", n.ns, n.nid)
 
 	case NodeIDTypeString:
-		if n.ns == 0 {
+		// the parser splits the namespace from the identifier at the first
+		// semicolon. Therefore, the namespace cannot be omitted if the
+		// identifier itself contains one.
+		if n.ns == 0 && !bytes.ContainsRune(n.bid, ';') {
 			return fmt.Sprintf("s=%s", n.StringID())
 		}
 		return fmt.Sprintf("ns=%d;s=%s", n.ns, n.StringID())
